@@ -194,7 +194,7 @@ def behaviours_from(run, proto, abstract, label, hub="detached"):
 
 
 def describe(ev):
-    keys = ("a", "s", "to", "gated", "banner", "conn", "entered", "want", "replies", "eof", "r", "ours", "start", "hub", "scan", "doscan", "drained", "sig", "b", "e")
+    keys = ("a", "s", "to", "gated", "banner", "conn", "entered", "want", "replies", "eof", "r", "ours", "start", "hub", "scan", "doscan", "drained", "sig", "err", "b", "e")
     return json.dumps({k: ev.get(k) for k in keys if k in ev})
 
 
